@@ -6,6 +6,7 @@ import (
 
 	"verifharness/core"
 
+	"github.com/cinar/indicator/v2/helper"
 	"github.com/cinar/indicator/v2/strategy"
 	"github.com/cinar/indicator/v2/verifmc/mc"
 )
@@ -237,10 +238,61 @@ func outcomeUnit(c *core.Ctx, la, lv, first int) {
 	c.Nontrivial += nontriv
 }
 
+// outcomeTypedUnit: Outcome is generic over helper.Number; the simulation is carried out in float64 whatever the
+// element type of the value stream (prices quoted in whole units, cents, float32 ticks). Values are chosen so that
+// their ratios are not whole numbers.
+func outcomeTypedUnit[T helper.Number](c *core.Ctx, tname string, alphabet []T, L int) {
+	var n, nontriv int64
+	for l := 0; l <= L; l++ {
+		for _, a := range words(3, l) {
+			actions := toActions(a)
+			for _, v := range words(len(alphabet), l) {
+				values := make([]T, l)
+				fv := make([]float64, l)
+				for i, k := range v {
+					values[i] = alphabet[k]
+					fv[i] = float64(alphabet[k])
+				}
+				var sink *Sink[float64]
+				res := mc.Run(func() { sink = Collect(strategy.Outcome(Feed(values, 0), Feed(actions, 0))) }, mc.Options{})
+				n++
+				c.Executions++
+				c.Transitions += int64(res.Events)
+				cs := map[string]any{"element_type": tname, "values": fv, "actions": a}
+				if res.Deadlock || len(res.Panics) > 0 || !sink.Closed {
+					c.Fail("", fmt.Sprintf("Outcome[%s] values %v actions %v did not terminate cleanly", tname, fv, actions), cs)
+					continue
+				}
+				want := refOutcome(fv, actions)
+				if len(sink.Vals) != len(want) {
+					c.Fail("", fmt.Sprintf("Outcome[%s] values %v actions %v: %d entries for %d pairs", tname, fv, actions, len(sink.Vals), len(want)), cs)
+					continue
+				}
+				moved := false
+				for i := range want {
+					if want[i] != 0 {
+						moved = true
+					}
+					if math.Abs(sink.Vals[i]-want[i]) > 1e-12*math.Max(1, math.Abs(want[i])) {
+						c.Fail("", fmt.Sprintf("Outcome[%s] values %v actions %v: outcome[%d] = %v, portfolio simulation gives %v", tname, fv, actions, i, sink.Vals[i], want[i]), cs)
+						break
+					}
+				}
+				if moved {
+					nontriv++
+				}
+			}
+		}
+	}
+	c.States += n
+	c.Evaluations += n
+	c.Nontrivial += nontriv
+}
+
 func init() {
 	core.Register(&core.Check{
-		ID:   "C08",
-		Rule: "every action word over {Sell,Hold,Buy} x every value word over {1,2,4}, all pairs of lengths up to 5 (6 thorough) including unequal lengths; each pair is one execution of the real Outcome / NormalizeActions / DenormalizeActions / CountTransactions pipelines under the controlled scheduler; oracle: reference cash/shares simulator plus the statement's invariants one by one; states = (values, actions) pairs, transitions = scheduler events, non-trivial = pairs on which the buy-and-hold identity was checked",
+		ID:     "C08",
+		Rule:   "every action word over {Sell,Hold,Buy} x every value word over {1,2,4}, all pairs of lengths up to 5 (6 thorough) including unequal lengths; each pair is one execution of the real Outcome / NormalizeActions / DenormalizeActions / CountTransactions pipelines under the controlled scheduler; oracle: reference cash/shares simulator plus the statement's invariants one by one; states = (values, actions) pairs, transitions = scheduler events, non-trivial = pairs on which the buy-and-hold identity was checked; plus Outcome instantiated with int, int64, int8 and float32 value streams (three values each with non-integral ratios, equal lengths up to 4 / 5) against the same simulator in float64",
 		Assume: []string{"values range over {1,2,4} (positive, powers of two so value ratios are exact); lengths up to the stated bound"},
 		Units: func(tier string) []core.Unit {
 			L := 5
@@ -264,6 +316,12 @@ func init() {
 					us = append(us, core.Unit{Key: fmt.Sprintf("outcome-a%d-v%d", la, lv), Cost: int(math.Pow(3, float64(la+lv))), Run: func(c *core.Ctx) { outcomeUnit(c, la, lv, -1) }})
 				}
 			}
+			// element types other than float64 (equal lengths up to 4 / 5)
+			T := L - 1
+			us = append(us, core.Unit{Key: "outcome-int", Cost: 300, Run: func(c *core.Ctx) { outcomeTypedUnit(c, "int", []int{10, 15, 4}, T) }})
+			us = append(us, core.Unit{Key: "outcome-int64", Cost: 300, Run: func(c *core.Ctx) { outcomeTypedUnit(c, "int64", []int64{3, 2, 1 << 40}, T) }})
+			us = append(us, core.Unit{Key: "outcome-int8", Cost: 300, Run: func(c *core.Ctx) { outcomeTypedUnit(c, "int8", []int8{100, 127, 3}, T) }})
+			us = append(us, core.Unit{Key: "outcome-float32", Cost: 300, Run: func(c *core.Ctx) { outcomeTypedUnit(c, "float32", []float32{1.5, 2.25, 0.1}, T) }})
 			return us
 		},
 	})
